@@ -20,7 +20,7 @@ prop(
     "C18",
     contract_modules=["contracts.c18", "contracts.c18t"],
     bcc="c18",
-    level="proof",
+    level="other",
     claimed=True,
     technique="contract-based deductive verification: symbolic execution of the real Python source against sidecar contracts, VCs to z3/cvc5; bounded contract check on real files as labelled stand-in for C-backed readers",
     level_text="Cursor representation invariant and read/seek/tell/len postconditions proved for the pure-Python file classes for symbolic "
@@ -30,7 +30,7 @@ prop(
     "changes nothing): loops cut by invariants, trip counts taken from the real iterables; the one-frame parsers of xyz and lammpstrj satisfy that contract on a line stream with symbolic numbers "
     "(complete / end of file / truncated frame; atoms stored by id; cell = hi - lo). The Cython file classes themselves (xtc/trr/dcd/dtr), the fixed-width mdcrd parser and the "
     "arc reader are covered only by the bounded check (all op sequences up to length 3/4), which is labelled bounded in evidence.",
-    level_note="Trusted: the VC generator and its models of numpy slicing, PyTables/netCDF4 nodes, text-file line readers; reals/ints mathematical; Cython/C readers not proved.",
+    level_note="Level other (not proof): part of the scope of the property is only bounded-checked, as the text says. Trusted: the VC generator and its models of numpy slicing, PyTables/netCDF4 nodes, text-file line readers; reals/ints mathematical; Cython/C readers not proved.",
     trusted=["numpy.basic-slicing", "mdtraj.utils.in_units_of"],
     assumptions=[
         "PyTables / netCDF4 variables index like numpy arrays along the frame axis; len(node) is the number of stored frames",
@@ -45,13 +45,13 @@ prop(
     "C20",
     contract_modules=["contracts.c20"],
     bcc="c20",
-    level="proof",
+    level="other",
     claimed=True,
     technique="contract-based deductive verification: path property (existence test dominates every write effect) by symbolic execution of every writer constructor with symbolic exists/force_overwrite; bounded sha256 check on real files as labelled stand-in for the Cython writers",
     level_text="For every pure-Python writer constructor and open_maybe_zipped: with symbolic `exists` and `force_overwrite`, every path that "
     "reaches a write effect has (not exists or force_overwrite), refusal raises OSError before any effect, and the first write effect "
     "truncates. save_* propagate their own force_overwrite to every (numbered) file. Cython constructors (xtc/trr/dcd/dtr) bounded only.",
-    level_note="Trusted: table of which library calls have write effects (fs.effects); single process (no TOCTOU claim); VC generator.",
+    level_note="Level other (not proof): part of the scope of the property is only bounded-checked, as the text says. Trusted: table of which library calls have write effects (fs.effects); single process (no TOCTOU claim); VC generator.",
     trusted=["fs.effects"],
     assumptions=["effects of open modes and of the third-party open functions are as listed in fs.effects", "no concurrent process changes the path between the existence test and the open"],
     explanation="Existence-check-dominates-write-effects proved per constructor for symbolic exists/force_overwrite.",
@@ -89,28 +89,28 @@ prop(
     "C17",
     contract_modules=["contracts.c17"],
     bcc="c17",
-    level="proof",
+    level="other",
     claimed=True,
     trusted=["libm.axioms", "numpy.elementwise"],
     assumptions=['valid cell = lengths>0, angles in (0,180), positivity of the Gram determinant', 'floats are reals'],
     explanation='NRA obligations on the real source of mdtraj/utils/unitcell.py.',
     technique='contract-based deductive verification: symbolic execution of the real Python source against sidecar contracts, VCs to z3/cvc5 over symbolic reals (NRA with ground-instantiated libm axioms, helper lemmas proved separately, numeric falsification for undecided VCs); bounded float32 evaluation as labelled stand-in',
     level_text="Both unit-cell conversions and the tilt factors are executed on one frame's symbolic reals: lengths, the three dot products with the documented angle naming, standard orientation and positive volume are proved for every valid cell; the inverse conversion returns norms and acos of normalised dots in the documented naming. The 1e-6 snapping is handled by proving the identities before snapping and bounding the snap. Cell presence through slice/join/stack/atom_slice is covered by the C03 contracts (fields None together).",
-    level_note='Trusted: reals for floats, libm axioms, elementwise numpy model. Rotation invariance of the setter and float32 behaviour are bounded-only.',
+    level_note='Level other (not proof): part of the scope of the property is only bounded-checked, as the text says. Trusted: reals for floats, libm axioms, elementwise numpy model. Rotation invariance of the setter and float32 behaviour are bounded-only.',
 )
 
 prop(
     "C19",
     contract_modules=["contracts.c19", "contracts.c19t"],
     bcc="c19",
-    level="proof",
+    level="other",
     claimed=True,
     trusted=["numpy.array-model"],
     assumptions=['after handle.flush()/sync() the bytes are in the OS page cache, which survives process death', 'PyTables EArray.append and netCDF slice assignment extend along axis 0 and reject shape mismatches before changing anything'],
     explanation='Rep(W) preservation and exceptional postconditions.',
     technique='contract-based deductive verification: symbolic execution of the real Python source against sidecar contracts, VCs to z3/cvc5; bounded partition/refusal/crash enumeration on real files as labelled stand-in for the Cython and text writers',
     level_text='Writer representation invariant for HDF5TrajectoryFile and NetCDFTrajectoryFile proved for one write() on an arbitrary state (symbolic frames-so-far n0, batch length n, atom counts, every schema combination): accepted batches extend every stored field by exactly the batch (=> any partition equals one call, by induction), ragged batches raise ValueError with every stored field and the position unchanged, HDF5 write ends with flush, flush() calls the library flush. The streaming text writers xyz, mdcrd and lammpstrj: one call with two frames and two calls with one frame each produce identical token streams (symbolic coordinates, formatted numbers as tokens; for lammpstrj apart from the call-local TIMESTEP number), the documented layouts, one mdcrd title line, and a write that adds or drops the cell lengths is refused with ValueError before anything is written. The other text writers, the Cython writers, and durability after flush (crash points) are bounded-only.',
-    level_note='Trusted: PyTables append / netCDF unlimited-dimension assignment models; third-party durability of flush/sync is assumed and exercised by the bounded crash check.',
+    level_note='Level other (not proof): part of the scope of the property is only bounded-checked, as the text says. Trusted: PyTables append / netCDF unlimited-dimension assignment models; third-party durability of flush/sync is assumed and exercised by the bounded crash check.',
 )
 
 prop(
